@@ -26,7 +26,7 @@ func init() {
 	register(&Rule{ID: "E-SELECTOR-NULL", Props: []string{"C01"}, Floor: 3,
 		Doc: "selectors and projection helpers return null (and no error) when their subject has the wrong type: the failure edge of the container assertion returns the nil constant",
 		Run: ruleESelectorNull})
-	register(&Rule{ID: "E-EQUALITY", Props: []string{"C20", "C09", "C01"}, Floor: 1,
+	register(&Rule{ID: "E-EQUALITY", Props: []string{"C20", "C09", "C01", "C03", "C05"}, Floor: 1,
 		Doc: "!= is the negation of the same equality helper as ==; contains tests membership with that helper; in equal the array and object loops are dominated by a length-equality test, the object loop tests key presence with a comma-ok lookup before comparing values, and different JSON types never compare equal by falling through",
 		Run: ruleEEquality})
 	register(&Rule{ID: "E-TRUTHY", Props: []string{"C20", "C14"}, Floor: 6,
@@ -1059,8 +1059,8 @@ func ruleEEquality(p *Program, r *Reporter) {
 			}
 			cx, okx := x.(*ssa.Call)
 			cy, oky := y.(*ssa.Call)
-			if okx && oky && builtinName(&cx.Call) == "len" && builtinName(&cy.Call) == "len" {
-				lenGuard = true
+			if okx && oky && builtinName(&cx.Call) == "len" && builtinName(&cy.Call) == "len" && !sameValue(cx.Call.Args[0], cy.Call.Args[0]) {
+				lenGuard = true // the lengths of two different containers (len(x) != len(x) guards nothing)
 			}
 		}
 		if !lenGuard {
@@ -1092,8 +1092,56 @@ func ruleEEquality(p *Program, r *Reporter) {
 		}
 		r.OK(blockPos(h), key, "length equality tested before the loop"+map[bool]string{true: "; key presence tested with a comma-ok lookup before values are compared", false: ""}[isMapLoop])
 	}
+	// the member-wise comparison handed to the standard library: slices.EqualFunc / maps.EqualFunc with the equality
+	// helper itself as the element relation compare lengths and (for maps) key presence themselves; slices.Equal and
+	// maps.Equal compare elements with ==, which is not the equality of the language (1.0 and 1; nested containers panic)
+	for _, f := range eqFns {
+		for _, b := range f.Blocks {
+			for _, in := range b.Instrs {
+				c, ok := in.(*ssa.Call)
+				if !ok {
+					continue
+				}
+				cf := calleeOf(&c.Call)
+				if cf == nil {
+					continue
+				}
+				pp, nm := originPkgPath(cf), strings.SplitN(cf.Name(), "[", 2)[0]
+				if (pp != "slices" && pp != "maps") || !strings.HasPrefix(nm, "Equal") {
+					continue
+				}
+				key := "equal " + pp + "." + nm
+				switch {
+				case nm == "EqualFunc" && len(c.Call.Args) == 3 && funcValueIs(c.Call.Args[2], equal):
+					nrec++
+					r.OK(c.Pos(), key, "members compared by the library with the equality helper itself as the element relation (lengths, and key presence for maps, are the library's)")
+				case nm == "EqualFunc":
+					r.Bad(instrPos(c), key, "members are compared with a relation that is not the equality helper of ==")
+				default:
+					r.Bad(instrPos(c), key, "members are compared with Go's == (slices.Equal / maps.Equal): numbers that differ in spelling or carrier compare unequal and nested containers panic")
+				}
+			}
+		}
+	}
 	if nrec < 2 {
-		r.Bad(equal.Pos(), "equal member-wise loops", fmt.Sprintf("%d member-wise comparison loops found in equal (arrays and objects expected)", nrec))
+		r.Bad(equal.Pos(), "equal member-wise loops", fmt.Sprintf("%d member-wise comparisons found in equal (arrays and objects expected)", nrec))
+	}
+}
+
+// funcValueIs: v is function fn used as a value (possibly through a conversion of its type).
+func funcValueIs(v ssa.Value, fn *ssa.Function) bool {
+	for {
+		switch x := v.(type) {
+		case *ssa.Function:
+			return x == fn
+		case *ssa.ChangeType:
+			v = x.X
+		case *ssa.MakeClosure:
+			f, _ := x.Fn.(*ssa.Function)
+			return f == fn
+		default:
+			return false
+		}
 	}
 }
 
@@ -1193,6 +1241,8 @@ func ruleETruthy(p *Program, r *Reporter) {
 			r.Unknown(fn.Pos(), key, ff.why)
 		case len(ff.keptUntested) > 0:
 			r.Bad(fn.Pos(), key, "elements are kept under a condition that is not isTrue(predicate result): this filter form uses a different truthiness rule ("+ff.keptUntested[0]+")")
+		case len(ff.dropped) > 0:
+			r.Bad(fn.Pos(), key, "an element is dropped although the predicate is true-like for it: whether it stays depends on something other than the predicate (and the element not being null) ("+ff.dropped[0]+")")
 		case ff.kept == 0:
 			r.Unknown(fn.Pos(), key, "no path keeps an element")
 		default:
@@ -1208,6 +1258,7 @@ type filterFacts struct {
 	why          string
 	paths, kept  int
 	keptUntested []string             // an element kept, or projected, without isTrue(predicate(element)) on its path
+	dropped      []string             // an element the predicate accepted is missing from a result made of elements, and the path does not know it to be null
 	rhsSites     map[token.Pos]string // evaluation sites of the other node: "" when always under the predicate, else why not
 }
 
@@ -1274,15 +1325,46 @@ func filterFactsOf(p *Program, vd *valDom, fn *ssa.Function) *filterFacts {
 		if why != "" {
 			continue // E-PRUNE reports an undeterminable result
 		}
+		allElems, inResult := len(es) >= 0, map[string]bool{}
 		for _, ev := range es {
 			sy, ok := ev.(avSym)
 			if !ok || !strings.HasPrefix(sy.tag, "elem") {
+				allElems = false
 				continue // a projected result: its evaluation was checked above
 			}
+			inResult[avKey(ev)] = true
 			if passed[avKey(ev)] {
 				ff.kept++
 			} else {
 				ff.keptUntested = append(ff.keptUntested, fmt.Sprintf("%s: the result contains %s, which the predicate has not accepted on that path", p.Fset.Position(o.Ret.Pos()), renderVal(ev)))
+			}
+		}
+		// a filter without a right-hand side keeps every element its predicate accepts, null elements excepted
+		if as, k, ok := vr.subjectArray(o.St); ok && allElems {
+			onlyPred := true
+			for _, ev := range o.St.Trace {
+				if ev.Kind == "eval" && avKey(ev.Args[0]) != predNode {
+					onlyPred = false
+				}
+			}
+			for i := int64(0); onlyPred && i < k; i++ {
+				el := elemSym(as, i)
+				if !passed[avKey(el)] || inResult[avKey(el)] {
+					continue
+				}
+				isNull := false
+				for _, c := range []struct {
+					op   token.Token
+					x, y AV
+					want bool
+				}{{token.EQL, el, avNil{}, true}, {token.EQL, avNil{}, el, true}, {token.NEQ, el, avNil{}, false}, {token.NEQ, avNil{}, el, false}} {
+					if t, ok := o.St.memo[avKey(avCmp{c.op, c.x, c.y})]; ok && t == c.want {
+						isNull = true
+					}
+				}
+				if !isNull {
+					ff.dropped = append(ff.dropped, fmt.Sprintf("%s: element %d, which the predicate accepted, is missing from the result on a path that has not found it to be null", p.Fset.Position(o.Ret.Pos()), i))
+				}
 			}
 		}
 	}
@@ -1591,7 +1673,7 @@ func ruleETies(p *Program, r *Reporter) {
 			continue
 		}
 		key := "evaluator." + job.name + " ties"
-		vr, why := d.run(fn, 3, nil)
+		vr, why := d.run(fn, 4, nil)
 		if why != "" {
 			r.Unknown(fn.Pos(), key, why)
 			continue
@@ -1607,74 +1689,107 @@ func ruleETies(p *Program, r *Reporter) {
 			if !ok || res.tag != "elem" {
 				continue
 			}
-			// the two keys: results of the evaluations against elements 0 and 1
-			keys := map[string]AV{}
-			for _, ev := range o.St.Trace {
-				if ev.Kind == "eval" {
-					if c, ok := ev.Args[1].(avSym); ok && c.tag == "elem" {
-						keys[avKey(c)] = ev.Res[0]
-					}
-				}
-			}
-			if len(keys) != 2 {
-				continue
-			}
 			t, _ := res.payload.(avTuple)
 			if len(t) != 2 {
 				continue
 			}
-			which, _ := o.St.KnownInt(t[1])
-			e0, e1 := elemSym(t[0], 0), elemSym(t[0], 1)
-			k0, k1 := keys[avKey(e0)], keys[avKey(e1)]
-			if k0 == nil || k1 == nil {
+			which, known := o.St.KnownInt(t[1])
+			if !known {
 				continue
 			}
-			// the ordering symbol of the two keys, in whichever form the path compared them (strings or decimals)
-			lo, hi, found := int64(-1), int64(1), false
+			// the keys: results of the evaluations against elements 0, 1, (2)
+			byElem := map[string]AV{}
+			for _, ev := range o.St.Trace {
+				if ev.Kind == "eval" {
+					if c, ok := ev.Args[1].(avSym); ok && c.tag == "elem" {
+						byElem[avKey(c)] = ev.Res[0]
+					}
+				}
+			}
+			n := len(byElem)
+			if n < 2 || n > 3 || which >= int64(n) {
+				continue
+			}
+			keys := make([]AV, n)
+			okKeys := true
+			for i := 0; i < n; i++ {
+				keys[i] = byElem[avKey(elemSym(t[0], int64(i)))]
+				okKeys = okKeys && keys[i] != nil
+			}
+			if !okKeys {
+				continue
+			}
+			// what the path knows about the order of the keys, in whichever form it compared them (strings or decimals),
+			// closed under transitivity: lt[i][j] key i strictly before key j, le[i][j] not after
+			lt := make([][]bool, n)
+			le := make([][]bool, n)
+			for i := range lt {
+				lt[i], le[i] = make([]bool, n), make([]bool, n)
+				le[i][i] = true
+			}
 			for _, wrap := range []func(AV) AV{
 				func(v AV) AV { return avSym{tag: "dec", payload: v} },
 				func(v AV) AV { return avSym{tag: "asserted:string", payload: v} },
 			} {
-				a, b := wrap(k1), wrap(k0)
-				for _, flip := range []bool{false, true} {
-					x, y := a, b
-					if flip {
-						x, y = b, a
-					}
-					if avKey(y) < avKey(x) {
-						continue // ord is kept with its arguments in key order
-					}
-					sy := avSym{tag: "ord", payload: avTuple{x, y}}
-					if f := o.St.ints[o.St.idOf(sy)]; f != nil {
-						found = true
-						if flip { // the symbol is ord(k0,k1): ord(k1,k0) is its negation
-							lo, hi = -f.hi, -f.lo
-						} else {
-							lo, hi = f.lo, f.hi
+				for i := 0; i < n; i++ {
+					for j := 0; j < n; j++ {
+						if i == j {
+							continue
+						}
+						if lo, hi, found := ordRange(o.St, wrap(keys[i]), wrap(keys[j])); found {
+							_ = lo
+							lt[i][j] = lt[i][j] || hi < 0
+							le[i][j] = le[i][j] || hi <= 0
 						}
 					}
 				}
 			}
-			// a path that never compared the keys by the three-way comparison knows nothing about their order
-			_ = found
+			for k := 0; k < n; k++ {
+				for i := 0; i < n; i++ {
+					for j := 0; j < n; j++ {
+						if (lt[i][k] && le[k][j]) || (le[i][k] && lt[k][j]) {
+							lt[i][j] = true
+						}
+						if le[i][k] && le[k][j] {
+							le[i][j] = true
+						}
+					}
+				}
+			}
 			checked++
-			s := job.sign
-			strictlyBetter := (s > 0 && lo >= 1) || (s < 0 && hi <= -1)
-			notBetter := (s > 0 && hi <= 0) || (s < 0 && lo >= 0)
-			switch {
-			case which == 1 && !strictlyBetter:
-				bad, badPos = fmt.Sprintf("the second element is returned on a path where the comparison of its key with the first one's is only known to lie in [%d,%d]: equal keys let the later element win", lo, hi), o.Ret.Pos()
-			case which == 0 && !notBetter:
-				bad, badPos = fmt.Sprintf("the first element is returned on a path where the comparison of the second key with the first is only known to lie in [%d,%d]: a strictly better later element is passed over", lo, hi), o.Ret.Pos()
+			w := int(which)
+			for j := 0; j < n && bad == ""; j++ {
+				if j == w {
+					continue
+				}
+				// better(a, b): key a strictly better than key b; notWorse(a, b): key a at least as good as key b
+				better := func(a, b int) bool {
+					if job.sign > 0 {
+						return lt[b][a]
+					}
+					return lt[a][b]
+				}
+				notWorse := func(a, b int) bool {
+					if job.sign > 0 {
+						return le[b][a]
+					}
+					return le[a][b]
+				}
+				switch {
+				case j < w && !better(w, j):
+					bad, badPos = fmt.Sprintf("of %d elements, element %d is returned on a path that does not know its key to be strictly better than that of the earlier element %d (equal keys let the later element win, or the keys were never compared with each other)", n, w, j), o.Ret.Pos()
+				case j > w && !notWorse(w, j):
+					bad, badPos = fmt.Sprintf("of %d elements, element %d is returned on a path that does not know its key to be at least as good as that of the later element %d (a strictly better later element is passed over, or the keys were never compared with each other)", n, w, j), o.Ret.Pos()
+				}
 			}
 		}
 		switch {
 		case bad != "":
 			r.Bad(badPos, key, bad)
 		case checked == 0:
-			r.Unknown(fn.Pos(), key, "no path over two elements compares their keys")
+			r.Unknown(fn.Pos(), key, "no path over two or three elements returns one of them")
 		default:
-			r.OK(fn.Pos(), key, fmt.Sprintf("%d paths over two elements: the later element wins exactly under a strict comparison of the keys", checked))
+			r.OK(fn.Pos(), key, fmt.Sprintf("%d paths over two and three elements: the element returned is strictly better than every earlier one and at least as good as every later one under the comparisons of its path (closed under transitivity)", checked))
 		}
 	}
 }
